@@ -38,6 +38,9 @@ Put(f, k, v) == [x \in (DOMAIN f) \cup {k} |-> IF x = k THEN v ELSE f[x]]
 Del(f, k) == [x \in (DOMAIN f) \ {k} |-> f[x]]
 PermOf(c) == IF c \in DOMAIN perm THEN perm[c] ELSE {}
 
+\* blocks of an instance keyed with the complemented representative enter the class complemented (DES only)
+Norm(f, b) == IF f THEN FlipBlock(b) ELSE b
+
 \* partial-bijection consistency of one more observation
 Consistent(P, pt, ct) == \A p \in P : (p[1] = pt) <=> (p[2] = ct)
 
@@ -54,7 +57,7 @@ New ==
        /\ e.via \in {"new", "checked"} => Len(e.key) = ArrayKeyLen(e.type)
        /\ e.out = Expected(e)                       \* never "panic" (C11, C20)
        /\ IF e.out = "ok"
-          THEN inst' = Put(inst, e.id, [type |-> e.type, class |-> Class(e.type, e.key, e.x)])
+          THEN inst' = Put(inst, e.id, [type |-> e.type, class |-> Class(e.type, e.key, e.x), flip |-> Flipped(e.type, e.key)])
           ELSE UNCHANGED inst
     /\ UNCHANGED <<perm, lanes, seen1, names, zimgs>>
 
@@ -78,7 +81,7 @@ From ==
        /\ e.out = "ok"
        /\ e.src \in DOMAIN inst
        /\ e.to \in ConvTargets(inst[e.src].type)
-       /\ LET ni == [type |-> e.to, class |-> inst[e.src].class] IN
+       /\ LET ni == [type |-> e.to, class |-> inst[e.src].class, flip |-> inst[e.src].flip] IN
           inst' = IF e.by = "value" THEN Put(Del(inst, e.src), e.id, ni) ELSE Put(inst, e.id, ni)
     /\ UNCHANGED <<perm, lanes, seen1, names, zimgs>>
 
@@ -96,8 +99,9 @@ One(dir) ==
        /\ e.id \in DOMAIN inst
        /\ LET t == inst[e.id].type
               c == inst[e.id].class
-              pt == IF dir = "enc" THEN e.in ELSE e.out
-              ct == IF dir = "enc" THEN e.out ELSE e.in
+              f == inst[e.id].flip
+              pt == Norm(f, IF dir = "enc" THEN e.in ELSE e.out)
+              ct == Norm(f, IF dir = "enc" THEN e.out ELSE e.in)
           IN /\ Kind(t) \in {"both", dir}
              /\ Len(e.in) = BlockLen(t) /\ Len(e.out) = BlockLen(t)
              /\ e.in_after = (IF e.shape \in {"inplace", "u64"} THEN e.out ELSE e.in)
@@ -107,13 +111,13 @@ One(dir) ==
     /\ UNCHANGED <<inst, lanes, names, zimgs>>
 
 \* ------------------------------------------------------------ multi-block
-RECURSIVE AddLanes(_, _, _, _, _)
+RECURSIVE AddLanes(_, _, _, _, _, _)
 \* fold the lanes of a batch into P, checking each against everything before it
-AddLanes(P, dir, ins, outs, j) ==
+AddLanes(P, f, dir, ins, outs, j) ==
     IF j > Len(ins) THEN [ok |-> TRUE, P |-> P]
-    ELSE LET pt == IF dir = "enc" THEN ins[j] ELSE outs[j]
-             ct == IF dir = "enc" THEN outs[j] ELSE ins[j]
-         IN IF Consistent(P, pt, ct) THEN AddLanes(P \cup {<<pt, ct>>}, dir, ins, outs, j + 1)
+    ELSE LET pt == Norm(f, IF dir = "enc" THEN ins[j] ELSE outs[j])
+             ct == Norm(f, IF dir = "enc" THEN outs[j] ELSE ins[j])
+         IN IF Consistent(P, pt, ct) THEN AddLanes(P \cup {<<pt, ct>>}, f, dir, ins, outs, j + 1)
             ELSE [ok |-> FALSE, P |-> {}]
 
 AllFill(blocks, v) == \A j \in 1..Len(blocks) : \A i \in 1..Len(blocks[j]) : blocks[j][i] = v
@@ -139,7 +143,7 @@ Blocks ==
                 ELSE /\ e.on = e.n
                      /\ Len(e.out) = e.n
                      /\ e.in_after = (IF e.shape = "inplace" THEN e.out ELSE e.in)
-                     /\ LET r == AddLanes(PermOf(c), e.dir, e.in, e.out, 1) IN
+                     /\ LET r == AddLanes(PermOf(c), inst[e.id].flip, e.dir, e.in, e.out, 1) IN
                         /\ r.ok
                         /\ perm' = Put(perm, c, r.P)
                      /\ lanes' = lanes \cup {<<c, e.dir, e.in[j]>> : j \in 1..Len(e.in)}
